@@ -25,10 +25,10 @@ TOL = 1e-6            # price tolerances are TOL * spot; probabilities / densiti
 DECAY = 1e-10         # regime: |characteristic function| at the last COS frequency
 BOX = {
     "BLACKSCHOLES": dict(sigma=(0.08, 0.5)),
-    "HEM": dict(sigma=(0.03, 0.3), p=(0.2, 0.8), eta1=(8.0, 40.0), eta2=(8.0, 40.0), intensity=(0.5, 6.0)),
+    "HEM": dict(sigma=(0.03, 0.3), p=(0.2, 0.8), eta1=(1.3, 40.0), eta2=(3.0, 40.0), intensity=(0.5, 6.0)),
     "MERTON": dict(sigma=(0.03, 0.3), mu_j=(0.0, 0.1), sigma_j=(0.03, 0.2), intensity=(0.5, 6.0)),
     "VG": dict(sigma=(0.08, 0.4), nu=(0.03, 0.25), theta=(-0.3, 0.2)),
-    "CGMY": dict(c=(0.3, 3.0), g=(6.0, 30.0), m=(6.0, 30.0), y=[0.2, 0.5, 1.2, 1.5]),
+    "CGMY": dict(c=(0.3, 3.0), g=(2.0, 30.0), m=(1.3, 30.0), y=[0.2, 0.5, 1.2, 1.5]),
 }
 MATURITIES = [1 / 12, 0.25, 0.5, 1.0, 2.0]
 RULE = ("documented box: spot in {1,50,100}, r in {0,.02,.05}, d in {0,.01}, T in {1/12,1/4,1/2,1,2}; " + json.dumps(BOX) +
@@ -54,7 +54,7 @@ ASSUMPTIONS = ["the differential tests hold on the documented box and regime onl
                "truncation error of COS (range l=10, n=10000 terms) and quadrature/interpolation error of FFT (N=2^18, eta=0.25, "
                "alpha=1.5) are NOT bounded by any theorem"]
 THEOREM_NOTES = {
-    "C18_parity_exact": "the forward leg (df*(S*mean - K) = S e^{-dT} - K e^{-rT}) has content (C18_forward_martingale); the option legs do not: "
+    "C18_parity_forward_leg": "the forward leg (df*(S*mean - K) = S e^{-dT} - K e^{-rT}) has content (C18_forward_martingale); the option legs do not: "
                         "COS computes the call FROM the put by parity and FFT the put FROM the call, so the put's (call's) pricing sum enters "
                         "as the same free number on both sides -- that the sum itself is the right price is not proved",
     "C18_forward_martingale": "exponential-model layer generated on the imaginary axis x = -iu (1j*x -> u); composition exp_mgf hand-written",
@@ -63,7 +63,7 @@ THEOREM_NOTES = {
                                   "established for norm.cdf/PhiR (only the symmetry, C18_PhiR_symmetric)",
     "C18_cos_is_integral": "linearity of the integral over the finite cosine family, about the hand model cos_sum/cos_density (tied by Interval "
                            "cases on pricers with 3-5 terms); the series f_N is COSPricer.density only for K = S (see Model/CosSum.v)",
-    "C18_density_is_series": "cos_density_impl mirrors cosmethod.py:72-82 and is tied to COSPricer.density by Interval cases",
+    "C18_density_is_series_specification": "cos_density_impl mirrors cosmethod.py:72-82 and is tied to COSPricer.density by Interval cases",
     "C18_shape_from_positive_density_partial": "partial and conditional: only put >= 0 and digital >= 0, under the hypothesis f_N >= 0 which is "
                                                "never discharged for a concrete model; monotonicity/convexity in K and all bounds are tests only",
     "C18_vg_is_cgmy": "real argument only (both u and 1 inside the strip); the raw exponents differ by theta*u, the exponential models agree",
@@ -313,7 +313,12 @@ def _run_lemmas(res, name, lemmas, timeout=900):
 def _sample(rng, name):
     out = {}
     for k, v in BOX[name].items():
-        out[k] = rng.choice(v) if isinstance(v, list) else rng.uniform(*v)
+        if isinstance(v, list):
+            out[k] = rng.choice(v)
+        elif k in ("eta1", "m") and rng.random() < 0.4:
+            out[k] = rng.uniform(v[0], 6.0)       # heavy right tails: E[S^u] infinite beyond u = eta1 resp. m
+        else:
+            out[k] = rng.uniform(*v)
     return out
 
 
@@ -351,6 +356,69 @@ def _differential(res, rng, n_sets, n_fft, viol):
                 if not dev <= TOL * S:
                     viol("variance-gamma and its CGMY parametrisation give different COS prices", what2="vg_vs_cgmy", deviation=dev,
                          tol=TOL * S, cgmy=dict(c=float(p._c), g=float(p._lambda_m), m=float(p._lambda_p), y=0.0), **rep)
+
+
+def _density_checks(res, model, cos, rep, a, b, df, bad):
+    """density and cdf on a uniform log grid over the truncation range (in-regime models only)"""
+    import numpy as np
+    T, name = rep["maturity"], rep["model"]
+    x0 = float(model.x0_value())
+    # trapezoid on M+1 uniform log-points is exact for the cosine series up to aliasing of the terms k >= 2M: the grid is
+    # refined until |cf(u_2M)| <= 1e-7; if 4000 intervals do not resolve the density the two quadrature checks are skipped
+    M = next((m for m in (1000, 4000) if abs(model.log_characteristic_function(t=T, x=2 * m * np.pi / (b - a))) <= 1e-7), None)
+    res.bump("density_grid", f"{name}: {M or 'unresolved (integral/cdf not asserted)'}")
+    resolved = M is not None
+    M = M or 1000
+    us = np.linspace(x0 + a, x0 + b, M + 1)
+    dens = np.concatenate([cos.density_log(time=T, u=us[i:i + 125]) for i in range(0, M + 1, 125)])
+    if np.any(dens < -TOL):
+        i = int(np.argmin(dens)); bad("implied density negative beyond the tolerance", log_spot=float(us[i]), density=float(dens[i]))
+    h = us[1] - us[0]
+    total = float(h * (np.sum(dens) - (dens[0] + dens[-1]) / 2))
+    if resolved and abs(total - 1.0) > TOL:
+        bad("implied density does not integrate to one", integral=total, grid=M)
+    # cdf against the cumulative Simpson integral of the density (even nodes); asserted only where Simpson and the
+    # cumulative trapezoid agree to 1e-4 (then Simpson's own error is far below the 5e-4 tolerance)
+    simpson = np.concatenate([[0.0], np.cumsum(h / 3 * (dens[0:-2:2] + 4 * dens[1:-1:2] + dens[2::2]))])   # at nodes 0,2,4,...
+    trapez = np.concatenate([[0.0], np.cumsum((dens[1:] + dens[:-1]) / 2 * h)])[::2]
+    nodes = np.arange(M // 10, M - M // 10 + 1, M // 20)
+    cdf = cos.cdf(time=T, x=np.exp(us[nodes]))
+    if np.any(np.diff(cdf) < -TOL):
+        bad("COSPricer.cdf is not monotone")
+    if resolved and float(np.max(np.abs(simpson - trapez))) <= 1e-4:
+        devc = np.abs(cdf - simpson[nodes // 2])
+        if np.any(devc > 5e-4):
+            i = int(np.argmax(devc))
+            bad("COSPricer.cdf is not the integral of COSPricer.density", x=float(np.exp(us[nodes][i])), cdf=float(cdf[i]),
+                integrated_density=float(simpson[nodes // 2][i]), df=df, grid=M)
+    else:
+        res.bump("density_grid", f"{name}: cdf-vs-density not asserted (quadrature too coarse)")
+    # cdf end points (independent of any quadrature): ~0 at the lower end of the range, ~1 at the upper end
+    ends = cos.cdf(time=T, x=np.exp(np.array([x0 + 0.9 * a, x0 + 0.9 * b])))
+    if abs(float(ends[0])) > 1e-5 or abs(float(ends[1]) - 1.0) > 1e-5:
+        bad("COSPricer.cdf does not run from 0 to 1 over the truncation range", cdf_low=float(ends[0]), cdf_high=float(ends[1]), df=df)
+    # the wrappers of the model class go through the same pricer (n=2000, l=20 for cdf)
+    xs = np.exp(np.array([x0 + 0.3 * a, x0, x0 + 0.3 * b]))
+    w = model.cdf(T, xs)
+    from rpylib.numerical.cosmethod import COSPricer
+    a2, b2 = COSPricer(model, n=2000, l=20)._interval_a_b(t=T)      # the wrapper's own discretisation: asserted in ITS regime only
+    wrapper_ok = abs(model.log_characteristic_function(t=T, x=1999 * np.pi / float(b2 - a2))) <= 1e-8
+    res.bump("cdf_wrapper", f"{name}: {'asserted' if wrapper_ok else 'n=2000,l=20 does not resolve the law: monotonicity only'}")
+    if np.any(np.diff(w) < -1e-3) or (wrapper_ok and (np.any(np.diff(w) < -TOL) or np.any(np.abs(w - cos.cdf(time=T, x=xs)) > 1e-4))):
+        bad("ExponentialOfLevyModel.cdf disagrees with COSPricer.cdf", model_cdf=[float(v) for v in w])
+    wd = model.density(T)(xs)
+    if np.any(np.abs(wd - cos.density(time=T, s=xs)) > 1e-9 * (1 + np.abs(wd))):
+        bad("ExponentialOfLevyModel.density disagrees with COSPricer.density")
+
+
+def _tail_rate(name, model):
+    """exponential decay rate M of the right tail of the Levy measure: E[S^u] is finite iff u < M"""
+    p = model.levy_model.parameters if name != "BLACKSCHOLES" else None
+    return {"HEM": lambda: float(p.eta1), "CGMY": lambda: float(p.m), "VG": lambda: float(p._lambda_p)}.get(name, lambda: float("inf"))()
+
+
+FFT_Q = 0.95      # FFT regime: the damped transform must be resolved by the grid, |psi(eta)| >= FFT_Q * |psi(0)| ...
+FFT_MARGIN = 2.5  # ... and its pole (right-tail rate M) must stay FFT_MARGIN away from the damping line 1 + alpha
 
 
 _FFT_PREV = {}
@@ -462,21 +530,52 @@ def _one_model(res, rng, model, rep, with_fft, viol):
         _density_checks(res, model, cos, rep, a, b, df, bad)
     kf = S * np.exp(np.linspace(max(a / 3, -0.7), min(b / 3, 0.7), 11))
     cosf = cos.call(kf, T)
+    # --- butterfly = calls, non-negative on equally spaced strikes
+    k1, k3 = float(ks[8]), float(ks[12])
+    k3s = [k1, (k1 + k3) / 2, k3]
+    bf = float(np.squeeze(cos.butterfly(k3s[0], k3s[1], k3s[2], T)))
+    c3 = cos.call(np.array(k3s), T)
+    if abs(bf - float(c3[0] - 2 * c3[1] + c3[2])) > 1e-12 * S or bf < -tol:
+        bad("COSPricer.butterfly is not call(K1) - 2 call(K2) + call(K3) >= 0", strikes=k3s, butterfly=bf)
     # --- FFT
     if with_fft:
         res.bump("fft", name)
         fft = FFTPricer(model)
-        fc, fp = fft.call(kf, T), fft.put(kf, T)
+        M_tail = _tail_rate(name, model)
+        v3 = np.array([0.0, fft.eta])
+        psi = fft._psi(t=T, v=v3)
+        q = float(abs(psi[1]) / abs(psi[0])) if np.all(np.isfinite(psi)) and abs(psi[0]) > 0 else float("nan")
+        out = None
+        try:
+            fc, fp = fft.call(kf, T), fft.put(kf, T)
+        except ValueError as e:
+            out = str(e)
         # models FFT-priced earlier in this process at the same maturity: part of the replay (a pricer must not remember them)
         hist = _FFT_HIST.setdefault(T, [])
         h0 = hist[:1] + hist[1:][-2:]
-        bad_fft = lambda what, **kw: bad(what, fft_history=h0, **kw)  # noqa
+        fft_info = dict(fft_history=h0, tail_rate=M_tail, fft_resolution_q=q)
         hist.append({k: rep[k] for k in ("model", "spot", "r", "d", "params")})
+        if M_tail <= 1 + fft.alpha:
+            # E[S^(1+alpha)] is infinite: the pricer's own sufficient condition must refuse the model
+            res.bump("fft_regime", f"{name}: E[S^2.5] infinite -> {'ValueError' if out else 'PRICE RETURNED'}")
+            if out is None:
+                dvm = float(np.max(np.abs(fc - cosf)))
+                bad("FFT pricer returns prices although E[S^(1+alpha)] is infinite (its sufficient condition does not fire)",
+                    fft=[float(v) for v in fc[:3]], cos=[float(v) for v in cosf[:3]], deviation=dvm, **fft_info)
+            return
+        if out is not None:
+            # the guard also refuses very large damped moments (> 1e10): legitimate, nothing to compare
+            res.bump("fft_regime", f"{name}: refused by the pricer ({out[:40]})")
+            return
+        resolved_fft = q >= FFT_Q and M_tail >= 1 + fft.alpha + FFT_MARGIN
+        res.bump("fft_regime", f"{name}: {'resolved' if resolved_fft else 'unresolved transform (F-C18-4 regime)'}")
+        tag = {} if resolved_fft else dict(finding="F-C18-4")
+        bad_fft = lambda what, **kw: bad(what, **kw, **fft_info, **tag)  # noqa
         dv = np.abs(fc - cosf)
         if np.any(dv > tol):
             i = int(np.argmax(dv)); bad_fft("COS and FFT call prices disagree", strike=float(kf[i]), cos=float(cosf[i]), fft=float(fc[i]), tol=tol)
         dv = np.abs((fc - fp) - df * (fwd - kf))
-        if np.any(dv > 1e-12 * np.maximum(S, kf)):
+        if np.any(dv > 1e-12 * np.maximum(S, np.maximum(kf, np.abs(fc)))):
             bad("put-call parity violated by the FFT pricer")
         # history independence: the previous model, re-priced at ITS maturity after this one, and this model priced again
         prev = _FFT_PREV.get(T)
@@ -493,6 +592,36 @@ def _one_model(res, rng, model, rep, with_fft, viol):
             dv = np.abs(fc - cfk)
             if np.any(dv > tol):
                 i = int(np.argmax(dv)); bad_fft("FFT and the Black-Scholes closed form disagree", strike=float(kf[i]), fft=float(fc[i]), closed_form=float(cfk[i]), tol=tol)
+
+
+# ----------------------------------------------------------------------------- recorded findings: matched by VALUE, never by tag alone
+LADDER_WHATS = ("call outside [intrinsic, bound]", "put outside [intrinsic, bound]", "call not decreasing in the strike",
+                "put not increasing in the strike", "call not convex in the strike", "digital price outside [0, df]",
+                "digital price not decreasing in the strike", "COS price is not finite")
+
+
+def matches_known(v, known):
+    r = v["replay"]
+    what = v["what"]
+    try:
+        if known["id"] == "F-C18-4":
+            # FFT: fixed grid eta does not resolve the damped transform; only COS/FFT(/closed form) disagreements in that regime
+            q = r.get("fft_resolution_q")
+            return (what in ("COS and FFT call prices disagree", "FFT and the Black-Scholes closed form disagree")
+                    and isinstance(q, float) and q == q and r.get("tail_rate", 0) > 2.5
+                    and (q < FFT_Q or r["tail_rate"] < 2.5 + FFT_MARGIN))
+        if known["id"] == "F-C18-5":
+            # COS: the truncation window is not shifted by log(S/K): only ladder predicates, only on strikes in the outer ring
+            # (beyond one third of the range, recomputed here from the recorded strike), never parity / instance / forward failures
+            if r.get("ladder") != "outer" or not (what in LADDER_WHATS or what.startswith("COS and the Black-Scholes closed form disagree")):
+                return False
+            x = math.log(r["strike"] / r["spot"])
+            frac = x / r["b"] if x > 0 else x / r["a"]
+            lo, hi = r["log_moneyness"]
+            return frac > 1 / 3 - 1e-9 and min(abs(lo), abs(hi)) >= min(abs(r["a"]), abs(r["b"])) / 3 - 1e-9
+    except Exception:  # noqa
+        return False
+    return False
 
 
 def _degenerate_bs(res, viol):
@@ -521,18 +650,46 @@ def _degenerate_bs(res, viol):
                     viol("degenerate Black-Scholes branch is not the discounted intrinsic value", got=got.tolist(), expected=exp.tolist(), **rep)
 
 
-def _guard_cases(res, viol):
-    """ExponentialOfLevyModel.__init__ must refuse parameters with E[exp(L_1)] infinite (kappa(1) not finite): ValueError expected"""
+def _guard_cases(res, rng, viol):
+    """ExponentialOfLevyModel.__init__ must refuse parameters with E[exp(L_1)] infinite.  Discharges, on the implementation, the two
+    hypotheses of C18_omega_guard: with tail_rate = eta1 (HEM) / M (CGMY) / lambda_+ (VG), z = complex(levy_exponent(-1j)) is finite
+    and real when 1 < tail_rate, and not finite or not real otherwise; the constructor raises ValueError exactly in the second case.
+    Returns Coq case lemmas running the generated guard on the observed (isfinite z, Re z, Im z)."""
+    import numpy as np
     from rpylib.model import utils as U_
     from rpylib.model.levymodel.levymodel import ModelType
-    outside = [("CGMY", dict(c=1.0, g=15.0, m=0.9, y=0.5)), ("CGMY", dict(c=1.0, g=15.0, m=0.5, y=1.5)),
-               ("HEM", dict(sigma=0.1, p=0.6, eta1=0.9, eta2=25.0, intensity=3.0)), ("HEM", dict(sigma=0.1, p=0.6, eta1=0.5, eta2=25.0, intensity=3.0)),
-               ("VG", dict(sigma=1.2, nu=2.0, theta=0.5))]
-    inside = [("CGMY", dict(c=1.0, g=15.0, m=1.5, y=0.5)), ("HEM", dict(sigma=0.1, p=0.6, eta1=1.5, eta2=25.0, intensity=3.0)),
-              ("VG", dict(sigma=0.2, nu=0.1, theta=-0.1))]
-    for name, kw in outside + inside:
-        expect_raise = (name, kw) in outside
+    fixed = [("CGMY", dict(c=1.0, g=15.0, m=0.9, y=0.5)), ("CGMY", dict(c=1.0, g=15.0, m=0.5, y=1.5)),
+             ("HEM", dict(sigma=0.1, p=0.6, eta1=0.9, eta2=25.0, intensity=3.0)), ("HEM", dict(sigma=0.1, p=0.6, eta1=0.5, eta2=25.0, intensity=3.0)),
+             ("VG", dict(sigma=1.2, nu=2.0, theta=0.5)), ("CGMY", dict(c=1.0, g=15.0, m=1.5, y=0.5)),
+             ("HEM", dict(sigma=0.1, p=0.6, eta1=1.5, eta2=25.0, intensity=3.0)), ("VG", dict(sigma=0.2, nu=0.1, theta=-0.1))]
+    u = rng.uniform
+    rand = [("HEM", dict(sigma=u(0.03, 0.3), p=u(0.2, 0.8), eta1=u(0.3, 2.0), eta2=u(3, 40), intensity=u(0.5, 6))) for _ in range(6)] + \
+           [("CGMY", dict(c=u(0.3, 3), g=u(2, 30), m=u(0.3, 2.0), y=rng.choice([0.2, 0.5, 1.2, 1.5]))) for _ in range(6)] + \
+           [("VG", dict(sigma=u(0.3, 1.5), nu=u(0.5, 3.0), theta=u(-0.5, 0.8))) for _ in range(6)]
+    lemmas = []
+    for name, kw in fixed + rand:
+        levy = U_.helper_model(ModelType[name], False)(**kw)
+        tail = {"HEM": lambda: kw["eta1"], "CGMY": lambda: kw["m"], "VG": lambda: float(levy.parameters._lambda_p)}[name]()
+        if abs(tail - 1) < 1e-6:
+            continue
+        inside = tail > 1
+        with np.errstate(all="ignore"):
+            try:
+                z = complex(levy.levy_exponent(x=-1j))
+            except ZeroDivisionError:
+                z = complex(float("inf"), 0.0)
+        finite = bool(np.isfinite(z))
+        real = finite and abs(z.imag) <= 1e-12 * max(1.0, abs(z.real))
         res.count(("guard", name, tuple(kw.values())), kind="constructor guard E[exp(L_1)] finite")
+        res.bump("omega_guard", f"{name}: {'inside' if inside else 'outside'} the strip -> {'finite real' if real else ('complex' if finite else 'not finite')}")
+        rep = dict(kind="guard", model=name, params=kw, tail_rate=tail, z=[z.real, z.imag] if finite else str(z))
+        if name == "HEM":
+            # the HEM closed form is finite and real beyond its pole: only the first hypothesis is expected, the class's own guard does the rest
+            if inside and not real:
+                viol("hypothesis of C18_omega_guard_hem fails: levy_exponent(-1j) is not finite/real although 1 < eta1", **rep)
+        elif inside != real:
+            viol("hypothesis of C18_omega_guard fails: levy_exponent(-1j) is " + ("not finite/real inside" if inside else "finite and real outside") +
+                 " the strip 1 < tail rate", **rep)
         try:
             m = U_.helper_model(ModelType[name])(spot=100.0, r=0.02, d=0.0, **kw)
             got = None
@@ -540,12 +697,48 @@ def _guard_cases(res, viol):
             got = "ValueError"
         except Exception as e:  # noqa
             got = type(e).__name__
-        if expect_raise and got != "ValueError":
-            viol(f"exponential model with E[exp(L_1)] infinite: expected ValueError, got {got or 'a model'}", kind="guard", model=name, params=kw)
-        if not expect_raise and got is not None:
-            viol(f"exponential model with finite E[exp(L_1)] refused: {got}", kind="guard", model=name, params=kw)
-        if got is None and abs(float(m.mean(1.0)) - math.exp(0.02)) > 1e-9:
-            viol("constructed exponential model does not have the martingale forward", kind="guard", model=name, params=kw, mean=float(m.mean(1.0)))
+        if (not inside) and got != "ValueError":
+            viol(f"exponential model with E[exp(L_1)] infinite: expected ValueError, got {got or 'a model'}", **rep)
+        if inside and got is not None:
+            viol(f"exponential model with finite E[exp(L_1)] refused: {got}", **rep)
+        if got is None and (abs(float(m.mean(1.0)) - math.exp(0.02)) > 1e-9 or abs(m.omega + z.real) > 1e-12 * max(1, abs(z.real))):
+            viol("constructed exponential model: omega <> -Re z or forward not a martingale", omega=float(m.omega), mean=float(m.mean(1.0)), **rep)
+        # the generated guard on the observed data
+        n = len(lemmas)
+        if not finite:
+            lemmas.append((f"guard {name} not finite", f"Lemma case_g{n} : exp_omega_checked false 0 0 = None.\nProof. rewrite exp_omega_checked_spec. reflexivity. Qed."))
+        elif real:
+            lemmas.append((f"guard {name} real", f"Lemma case_g{n} : exp_omega_checked true {rlit(z.real)} {rlit(z.imag)} = Some (- {rlit(z.real)}).\n"
+                           f"Proof. apply exp_omega_checked_some. interval. Qed."))
+        else:
+            lemmas.append((f"guard {name} complex", f"Lemma case_g{n} : exp_omega_checked true {rlit(z.real)} {rlit(z.imag)} = None.\n"
+                           f"Proof. apply exp_omega_checked_none. interval. Qed."))
+        if (got is None) != (finite and real and not (name == "HEM" and kw["eta1"] <= 1)):
+            viol("constructor and its generated guard disagree on the observed exponent", **rep)
+    return lemmas
+
+
+def _fft_guard_cases(res, viol):
+    """FFTPricer needs E[S^(1+alpha)] finite (alpha = 1.5): with a right-tail rate M <= 2.5 its sufficient condition must raise"""
+    import numpy as np
+    from rpylib.model import utils as U_
+    from rpylib.model.levymodel.levymodel import ModelType
+    from rpylib.numerical.cosmethod import COSPricer
+    from rpylib.numerical.fft import FFTPricer
+    cases = [("HEM", dict(sigma=0.05, p=0.6, eta1=2.0, eta2=25.0, intensity=3.0)), ("HEM", dict(sigma=0.05, p=0.6, eta1=1.7, eta2=25.0, intensity=3.0)),
+             ("HEM", dict(sigma=0.2, p=0.3, eta1=2.4, eta2=10.0, intensity=1.0)), ("CGMY", dict(c=1.0, g=15.0, m=2.0, y=0.5)),
+             ("CGMY", dict(c=0.5, g=8.0, m=1.4, y=1.5)), ("CGMY", dict(c=2.0, g=20.0, m=2.45, y=0.2))]
+    for name, kw in cases:
+        for T in (0.25, 1.0):
+            model = U_.helper_model(ModelType[name])(spot=100.0, r=0.02, d=0.0, **kw)
+            res.count(("fft-guard", name, tuple(kw.values()), T), kind="FFT sufficient condition")
+            try:
+                v = float(np.squeeze(FFTPricer(model).call(100.0, T)))
+            except ValueError:
+                continue
+            viol("FFT pricer returns prices although E[S^(1+alpha)] is infinite (its sufficient condition does not fire)",
+                 kind="fft_guard", model=name, params=kw, maturity=T, tail_rate=_tail_rate(name, model), fft=v,
+                 cos=float(COSPricer(model).call(np.array([100.0]), T)[0]))
 
 
 def correspond(res):
@@ -562,9 +755,10 @@ def correspond(res):
         bs = _bs_cases(res, rng, 6 if quick else 40)
         sums = _sum_cases(res, rng, 4 if quick else 20) + _density_cases(res, rng, 5 if quick else 20)
         _degenerate_bs(res, viol)
-        _guard_cases(res, viol)
+        guard = _guard_cases(res, rng, viol)
+        _fft_guard_cases(res, viol)
         _differential(res, rng, 14 if quick else 150, 6 if quick else 60, viol)
-    _run_lemmas(res, "cases_coefficients", coef + simp)
+    _run_lemmas(res, "cases_coefficients", coef + simp + guard)
     _run_lemmas(res, "cases_bs", bs)
     _run_lemmas(res, "cases_sum", sums)
 
@@ -592,6 +786,17 @@ def replay(path):
         except Exception as e:  # noqa
             print(f"raises {type(e).__name__}: {e}")
             return 1
+    if data.get("kind") == "fft_guard":
+        from rpylib.model import utils as U_
+        from rpylib.model.levymodel.levymodel import ModelType
+        from rpylib.numerical.fft import FFTPricer
+        model = U_.helper_model(ModelType[data["model"]])(spot=100.0, r=0.02, d=0.0, **data["params"])
+        try:
+            print("FFT call(100) =", float(np.squeeze(FFTPricer(model).call(100.0, data["maturity"]))), "with right-tail rate", data["tail_rate"], "<= 2.5; COS:", data["cos"])
+            return 1
+        except ValueError as e:
+            print("raises ValueError:", e)
+            return 0
     if data.get("kind") != "differential":
         print("replay: re-run ./check C18 to re-evaluate this class of input")
         return 1
